@@ -1,5 +1,247 @@
-(** C18 stub (to be replaced) *)
-From Coq Require Import List.
-Require Import Celma.Text.Usage.
-Theorem C18_stub : True. Proof. exact I. Qed.
-Print Assumptions C18_stub.
+(** C18  The usage lists exactly the visible arguments, each once.
+    Only statements; every proof is [exact <lemma of Text/UsageProofs.v>].
+
+    Model (Text/Usage.v): [print p width args] are the lines ArgumentDesc::print
+    writes for the argument descriptors [args] (definition order) under the usage
+    parameters [p]; [usage_lines] adds what Handler::usage writes around it;
+    [help_argument abbr args key] is Handler::helpArgument; [eval_cmd] evaluates
+    one of the standard help arguments.  Vocabulary (Text/UsageProofs.v):
+      [visible p a]      a is not hidden unless p prints hidden arguments, not
+                         deprecated unless p prints deprecated ones, and has a short
+                         (long) key when p restricts the display to short (long) keys
+      [listed p m args]  the visible arguments with mandatory = m, in definition order
+      [caption m b]      "Mandatory arguments:" / "Optional arguments:" (the latter
+                         after an empty line when b: a mandatory section precedes)
+      [section_lines]    nothing for an empty section, else the caption and the
+                         entry blocks [entry_lines] of its arguments, one after the other
+      [words s]          the blank-separated pieces of the lines of s (C17)
+      [key_ok k]         the key text is not empty and holds no blank
+    All theorems hold for every argument list, every parameter setting and every
+    line width; nothing is bounded. *)
+From Coq Require Import List Arith NArith Bool Permutation.
+Import ListNotations.
+Require Import Celma.Common.Res Celma.Text.TextBlockModel Celma.Text.TextBlockProofs.
+Require Import Celma.Text.Usage Celma.Text.UsageProofs.
+Require Celma.ArgH.Key Celma.ArgH.Table.
+
+(** usage_section: the usage is the mandatory section followed by the optional
+    section; each holds, under its caption, one entry block per visible
+    argument of its class, in definition order ([listed] is a [filter]). *)
+Theorem C18_usage_section :
+  forall p width args,
+    print p width args =
+    let m := max_key_length p args in
+    let same := m <? MaxNameLength in
+    section_lines p width same m true false (listed p true args)
+    ++ section_lines p width same m false (negb (is_nil_l (listed p true args))) (listed p false args).
+Proof. exact print_structure. Qed.
+Print Assumptions C18_usage_section.
+
+Theorem C18_usage_section_order :
+  forall p mand args,
+    listed p mand args = filter (visible p) (filter (fun a => Bool.eqb mand (mandatory a)) args).
+Proof. exact listed_order. Qed.
+Print Assumptions C18_usage_section_order.
+
+(** usage_each_visible_once: whatever identifies an argument ([q]), the number
+    of entries for it is the number of visible arguments it identifies - one
+    for a visible argument that [q] singles out, none for an invisible one;
+    the listed arguments are a rearrangement (mandatory first) of exactly the
+    visible ones. *)
+Theorem C18_usage_each_visible_once :
+  forall p args (q : arg -> bool),
+    length (filter q (listed p true args ++ listed p false args)) =
+    length (filter (fun a => q a && visible p a) args).
+Proof. exact listed_count. Qed.
+Print Assumptions C18_usage_each_visible_once.
+
+Theorem C18_usage_lists_exactly_visible :
+  forall p args,
+    Permutation (listed p true args ++ listed p false args) (filter (visible p) args) /\
+    (forall a, In a (listed p true args ++ listed p false args) <-> In a args /\ visible p a = true).
+Proof. intros p args. split; [apply listed_permutation|intros a; apply listed_in]. Qed.
+Print Assumptions C18_usage_lists_exactly_visible.
+
+(** usage_entry_complete: the entry starts with the indentation and the key
+    text; its words are the key text followed by every word of the description
+    and of the configured extras (minus the forced-break token "nn"), through
+    the C17 words-preserved theorem; the key text shows every key the display
+    mode allows. *)
+Theorem C18_usage_entry_complete :
+  forall p width same m a,
+    (exists rest more,
+        entry_lines p width same m a = (spaces IndentLength ++ key_text (cont p) a ++ rest) :: more) /\
+    (key_ok (key_text (cont p) a) ->
+     flat_map (tokens SP) (entry_lines p width same m a) =
+     key_text (cont p) a
+       :: filter not_nn (words (desc a) ++ words (extra_default a) ++ words (extra_check a)
+                         ++ words (extra_constraint a) ++ words (extra_deprecated a)
+                         ++ words (extra_hidden a))).
+Proof.
+  intros p width same m a. split; [apply entry_first_line|].
+  intros H. rewrite <- desc_copy_words. apply entry_words. exact H.
+Qed.
+Print Assumptions C18_usage_entry_complete.
+
+Theorem C18_usage_extras_configured :
+  forall a,
+    (mandatory a = false -> print_default a = true ->
+     words (extra_default a) =
+     words (S_DEFAULT ++ default_or_nil a
+            ++ (if is_nil_l (unit_text a) then [] else S_UNIT_OPEN ++ unit_text a ++ S_UNIT_CLOSE))) /\
+    (checks a <> [] -> words (extra_check a) = words (S_CHECK ++ join_comma (checks a))) /\
+    (constraints a <> [] -> words (extra_constraint a) = words (S_CONSTRAINT ++ join_comma (constraints a))) /\
+    (deprecated a = true -> replaced_by a = [] -> words (extra_deprecated a) = [S_DEPRECATED]) /\
+    (deprecated a = true -> replaced_by a <> [] ->
+     words (extra_deprecated a) = words (S_REPLACED ++ replaced_by a ++ S_REPLACED_END)) /\
+    (hidden a = true -> words (extra_hidden a) = [S_HIDDEN]) /\
+    (hidden a = false -> extra_hidden a = []) /\
+    (deprecated a = false -> extra_deprecated a = []).
+Proof. exact extras_configured. Qed.
+Print Assumptions C18_usage_extras_configured.
+
+Theorem C18_usage_key_text_complete :
+  forall c a,
+    match c with
+    | CAll =>
+        (Key.has_c (akey a) = true -> exists rest, key_text c a = [DASH; Key.kc (akey a)] ++ rest) /\
+        (Key.has_w (akey a) = true -> exists pre, key_text c a = pre ++ [DASH; DASH] ++ Key.kw (akey a))
+    | CShort => key_text c a = [DASH; Key.kc (akey a)]
+    | CLong => key_text c a = [DASH; DASH] ++ Key.kw (akey a)
+    end.
+Proof. exact key_text_complete. Qed.
+Print Assumptions C18_usage_key_text_complete.
+
+(** usage_short_long_only: with short-only (long-only) display everything that
+    is listed has a short (long) key and is shown by it; together with
+    C18_usage_lists_exactly_visible: listed = the arguments that have such a
+    key (and are not hidden / deprecated unless requested). *)
+Theorem C18_usage_short_long_only :
+  forall p args a,
+    In a (listed p true args ++ listed p false args) ->
+    match cont p with
+    | CAll => key_text (cont p) a = key_text_all (akey a)
+    | CShort => Key.has_c (akey a) = true /\ key_text (cont p) a = [DASH; Key.kc (akey a)]
+    | CLong => Key.has_w (akey a) = true /\ key_text (cont p) a = [DASH; DASH] ++ Key.kw (akey a)
+    end.
+Proof. exact short_long_only. Qed.
+Print Assumptions C18_usage_short_long_only.
+
+(** help_arg_known_or_unknown: when the help for one argument returns, the key
+    was found (exactly or as unambiguous abbreviation) and the caption is
+    followed by that argument's description - all of its words - or the key
+    is reported as unknown on the error stream.  [keys_distinct] / reflexive
+    keys is what Storage::addArgument guarantees for the arguments of a handler. *)
+Theorem C18_help_arg_known_or_unknown :
+  forall abbr args ks r,
+    keys_distinct args ->
+    Forall (fun a => Key.key_eq (akey a) (akey a) = true) args ->
+    help_argument abbr args ks = Ok r ->
+    exists k, Key.parse_key ks = Ok k /\
+      ((exists a, In a args /\ Table.find_arg abbr (arg_table args) k = Ok (Some a) /\
+                  r = HelpOut (help_caption k :: attach [] (format_lines 3 80 true (desc a))) /\
+                  flat_map (tokens SP) (attach [] (format_lines 3 80 true (desc a))) =
+                  filter not_nn (words (desc a)))
+       \/ (Table.find_arg abbr (arg_table args) k = Ok None /\
+           r = HelpUnknown [S_ERR_ARG ++ ks ++ S_ERR_UNKNOWN])).
+Proof.
+  intros abbr args ks r H1 H2 H3.
+  destruct (help_argument_spec abbr args ks r H1 H2 H3) as (k & Hk & [(a & Ha & Hf & Hr)|H]).
+  - exists k. split; [exact Hk|]. left. exists a. repeat split; try assumption. apply help_words.
+  - exists k. split; [exact Hk|]. right. exact H.
+Qed.
+Print Assumptions C18_help_arg_known_or_unknown.
+
+(** the handler: -h / --help appends exactly the usage for the current
+    settings and marks it printed (the final checks are skipped); a display
+    requested on the command line is on afterwards; printing never throws when
+    every argument that prints its default value can deliver one - which the
+    destination kinds of the library do whenever their constructor enables it. *)
+Theorem C18_help_prints_usage :
+  forall f width args s s',
+    eval_cmd f width args s CmdHelp = Ok s' ->
+    hout s' = hout s ++ usage_lines (hp s) width args /\ herr s' = herr s /\ hp s' = hp s /\
+    hprinted s' = true /\ print_fails (hp s) args = false.
+Proof. exact eval_help. Qed.
+Print Assumptions C18_help_prints_usage.
+
+Theorem C18_display_requested :
+  forall f width args s s',
+    (eval_cmd f width args s CmdPrintHidden = Ok s' ->
+     print_hidden (hp s') = true /\ print_deprecated (hp s') = print_deprecated (hp s) /\ cont (hp s') = cont (hp s)) /\
+    (eval_cmd f width args s CmdPrintDeprecated = Ok s' ->
+     print_deprecated (hp s') = true /\ print_hidden (hp s') = print_hidden (hp s) /\ cont (hp s') = cont (hp s)) /\
+    (eval_cmd f width args s CmdHelpShort = Ok s' -> cont (hp s') = CShort) /\
+    (eval_cmd f width args s CmdHelpLong = Ok s' -> cont (hp s') = CLong).
+Proof. exact eval_request. Qed.
+Print Assumptions C18_display_requested.
+
+Theorem C18_usage_never_throws :
+  (forall p args, defaults_available args -> print_fails p args = false) /\
+  (forall k iv, kind_print_default k = true -> kind_default_text k iv <> None).
+Proof. split; [exact print_never_fails|exact kind_defaults]. Qed.
+Print Assumptions C18_usage_never_throws.
+
+(* ------------------------------------------------------------------ *)
+(** Non-vacuity and the witnesses against the pinned code. *)
+Definition s_ (l : list nat) : list N := map N.of_nat l.
+Definition a_input : arg :=   (* -i,--input  mandatory  "the input" *)
+  mkarg {| Key.kc := 105%N; Key.kw := s_ [105;110;112;117;116] |} true false false [] true
+        (Some (s_ [48])) [] [] [] (s_ [116;104;101;32;105;110;112;117;116]).
+Definition a_secret : arg :=  (* --secret  hidden  "a secret" *)
+  mkarg {| Key.kc := 0%N; Key.kw := s_ [115;101;99;114;101;116] |} false true false [] false
+        None [] [] [] (s_ [97;32;115;101;99;114;101;116]).
+Definition a_verbose_pinned : arg :=  (* -v  level counter as the pinned code builds it *)
+  mkarg {| Key.kc := 118%N; Key.kw := [] |} false false false [] true
+        (kind_default_text_pinned KLevel (s_ [48])) [] [] [] (s_ [118]).
+
+Example C18_nonvacuous_listed :
+  listed (mkparams false false CAll) true [a_input; a_secret] = [a_input] /\
+  listed (mkparams false false CAll) false [a_input; a_secret] = [] /\
+  listed (mkparams true false CAll) false [a_input; a_secret] = [a_secret] /\
+  listed (mkparams true false CShort) false [a_input; a_secret] = [] /\
+  keys_distinct [a_input; a_secret] /\ key_ok (key_text CAll a_input).
+Proof.
+  repeat split; try reflexivity.
+  - repeat constructor.
+  - discriminate.
+  - vm_compute. repeat constructor; discriminate.
+Qed.
+
+Example C18_nonvacuous_usage :
+  unlines (usage_lines (mkparams false false CAll) 80 [a_input; a_secret]) =
+  s_ [85;115;97;103;101;58;10;
+      77;97;110;100;97;116;111;114;121;32;97;114;103;117;109;101;110;116;115;58;10;
+      32;32;32;45;105;44;45;45;105;110;112;117;116;32;32;32;116;104;101;32;105;110;112;117;116;10;
+      10].
+Proof. vm_compute. reflexivity. Qed.
+
+(** pinned code, defect 1: --help-arg=inp finds --input but prints no description *)
+Example C18_help_arg_abbreviation_pinned_refuted :
+  help_argument_pinned true [a_input] (s_ [105;110;112]) =
+    Ok (HelpOut [help_caption {| Key.kc := 0%N; Key.kw := s_ [105;110;112] |}; []]) /\
+  help_argument true [a_input] (s_ [105;110;112]) =
+    Ok (HelpOut [help_caption {| Key.kc := 0%N; Key.kw := s_ [105;110;112] |};
+                 s_ [32;32;32;116;104;101;32;105;110;112;117;116]]).
+Proof. split; vm_compute; reflexivity. Qed.
+
+(** pinned code, defect 2: the usage of a handler with an optional level
+    counter argument throws *)
+Example C18_level_counter_pinned_refuted :
+  eval_case 32769%N 80 [a_verbose_pinned] [CmdHelp] = Err ERuntime /\
+  (forall a, user_arg (s_ [118]) KLevel (s_ [48]) false false false [] None [] [] [] (s_ [118]) = Ok a ->
+             is_ok (eval_case 32769%N 80 [a] [CmdHelp]) = true).
+Proof.
+  split; [vm_compute; reflexivity|].
+  intros a H. vm_compute in H. inversion H; subst. vm_compute. reflexivity.
+Qed.
+
+(** pinned code, defect 3: with hfUsageHidden | hfArgHidden the argument
+    --print-hidden switches the display of hidden arguments off *)
+Example C18_display_toggle_pinned_refuted :
+  (* flags: hfHelpShort | hfUsageHidden | hfArgHidden | hfUsageCont *)
+  (exists s, eval_case_pinned 33537%N 80 [a_secret] [CmdPrintHidden; CmdHelp] = Ok s /\
+             print_hidden (hp s) = false /\ length (hout s) = 5) /\
+  (exists s, eval_case 33537%N 80 [a_secret] [CmdPrintHidden; CmdHelp] = Ok s /\
+             print_hidden (hp s) = true /\ length (hout s) = 7).
+Proof. split; eexists; (split; [vm_compute; reflexivity|split; reflexivity]). Qed.
